@@ -610,7 +610,7 @@ func init() {
 					}
 				case *ssa.Const:
 					if x.Value == nil {
-						return "" // zero value before assignment
+						return "nil is returned: the entry gets no statistic node (a typed-nil StatNode defeats the nil guards of the statistic slot; pass and completion are recorded nowhere)"
 					}
 				}
 				return "origin " + accessPath(v) + " is not a per-name node"
@@ -690,6 +690,47 @@ func init() {
 				}
 				c.Check(held && rechecked, fnKey(f)+" / absent-rechecked-under-write-lock", mu.Pos(), "the node is registered with rnsMux write-held (%v) and only after resNodeMap[name] was found absent under that same hold (%v): concurrent first entries of one resource must end up on one node", held, rechecked)
 			})
+		},
+	})
+}
+
+func init() {
+	register(&Rule{
+		ID: "stat.node-reads-through-view", Props: []string{"C07", "C08"}, Floor: 8,
+		Doc: "every statistic a BaseStatNode reports (QPS, sums, max / average / minimum response time, peak concurrency - the figures the system rules and the BBR estimate compare) is read through the node's own SlidingWindowMetric view (n.metric), i.e. over the node's configured interval; the underlying BucketLeapArray (n.arr, the longer shared array) is only written (result-less calls) and handed to view constructors. A reader that asks the array directly reports figures of a different, longer window than its sibling readers",
+		Run: func(c *Ctx) {
+			bn := c.P.Named("core/stat.BaseStatNode")
+			if bn == nil {
+				c.AnchorLost("core/stat.BaseStatNode")
+				return
+			}
+			n := 0
+			for _, f := range c.P.FuncsIn(modPath + "/core/stat") {
+				recv := f.Signature.Recv()
+				if recv == nil || namedOf(recv.Type()) != bn || isTestOrExample(f) || f.Blocks == nil {
+					continue
+				}
+				n++
+				bad := ""
+				viaView := 0
+				for _, ci := range callsIn(f) {
+					cal := ci.Common().StaticCallee()
+					if cal == nil || cal.Signature.Recv() == nil || len(ci.Common().Args) == 0 {
+						continue
+					}
+					p := accessPath(ci.Common().Args[0])
+					if strings.HasSuffix(p, ".metric") {
+						viaView++
+					}
+					if strings.HasSuffix(p, ".arr") && cal.Signature.Results().Len() > 0 {
+						bad = c.P.Pos(ci.Pos()) + ": " + cal.Name()
+					}
+				}
+				c.Check(bad == "", fnKey(f)+" / no-read-from-array", f.Pos(), "%d call(s) through the view; value-returning call on the underlying array: %q", viaView, bad)
+			}
+			if n == 0 {
+				c.AnchorLost("methods of BaseStatNode")
+			}
 		},
 	})
 }
